@@ -247,6 +247,16 @@ func c04Enumerate(c *Ctx, bd c04Bounds, oracle func(cs *c04Case, t *gsTransition
 		enPats = []int{0, 1, 3}
 		traitPats = []int{1, 2}
 	}
+	// below k = 6 the recurrent self-loop (#6) is outside the alphabet: add the gene lists over
+	// {#1, #2, #3, #6} that contain it; pairs that involve one of them run with one enabled / trait pattern
+	extra := map[int]bool{}
+	if bd.K < 6 && bd.Prop == "C04" {
+		for sub := 0; sub < 8; sub++ {
+			m := sub | 1<<5
+			masks = append(masks, m)
+			extra[m] = true
+		}
+	}
 	methods := []string{"mateMultipoint", "mateMultipointAvg", "mateSinglePoint"}
 	c.Extra["mate_parent_gene_lists"] = len(masks)
 	c.Dynamic = true
@@ -257,6 +267,10 @@ func c04Enumerate(c *Ctx, bd c04Bounds, oracle func(cs *c04Case, t *gsTransition
 		}
 		var execs, cases int64
 		for _, mb := range masks {
+			enPats, traitPats := enPats, traitPats
+			if extra[masks[ai]] || extra[mb] {
+				enPats, traitPats = []int{0}, []int{1}
+			}
 			for _, ea := range enPats {
 				for _, eb := range enPats {
 					for _, tp := range traitPats {
@@ -462,7 +476,7 @@ func runC04(c *Ctx) {
 	c.Extra["master_list_k"] = bd.K
 	c04Enumerate(c, bd, c04Oracle(c))
 	c.States = int64(len(c.distinct))
-	c.Rule = fmt.Sprintf("parents = every non-empty well-formed subset of a master list of k=%d innovations over {bias, 2 inputs, output(s), 2 hidden} - in two node layouts: outputs before the hidden nodes, and hidden nodes before two outputs - that contains two innovations for the same link, a forward and a recurrent gene between one node pair and (k >= 6) a recurrent self-loop; all ordered pairs x enabled patterns x trait patterns {mixed, nil, (thorough: uniform)} x fitness orders {<,=,>} x {multipoint, multipoint-avg, single-point} x every choice sequence of the mate call (complete tree when <= 3 (multipoint) / <= 1 (avg) genes match and always for single-point, else all sequences within 3 / 2 deviations of Z, M, H); weights and mutation numbers from the hard-float alphabet. Oracle = the C04 statement clause by clause. states = distinct ordered parent pairs, transitions = mate calls on the real code", bd.K)
+	c.Rule = fmt.Sprintf("parents = every non-empty well-formed subset of a master list of k=%d innovations over {bias, 2 inputs, output(s), 2 hidden} - in two node layouts: outputs before the hidden nodes, and hidden nodes before two outputs - that contains two innovations for the same link, a forward and a recurrent gene between one node pair and a recurrent self-loop (k >= 6: in the alphabet; below: the gene lists over {#1,#2,#3,#6} containing it are added); all ordered pairs x enabled patterns x trait patterns {mixed, nil, (thorough: uniform)} x fitness orders {<,=,>} x {multipoint, multipoint-avg, single-point} x every choice sequence of the mate call (complete tree when <= 3 (multipoint) / <= 1 (avg) genes match and always for single-point, else all sequences within 3 / 2 deviations of Z, M, H); weights and mutation numbers from the hard-float alphabet. Oracle = the C04 statement clause by clause. states = distinct ordered parent pairs, transitions = mate calls on the real code", bd.K)
 	c.Assume("parents share consistent innovation numbering (equal number => equal link); conflicting numbering appears only as two numbers for one link")
 	c.Assume("Go toolchain, go build -overlay, the instrumenter and the accessor file are trusted")
 }
